@@ -153,7 +153,7 @@ class TypeInfo:
                 for f in glob.glob(os.path.join(d, "src/**/*.rs"), recursive=True):
                     try:
                         self._scan(open(f).read(), only_enums={"Expr", "Lit", "Fields", "Data", "Meta", "GenericParam", "Type", "Item", "PathArguments",
-                                                               "GenericArgument", "ImplItem", "Member"}, structs_ok={"Flag", "ExprLit", "NameValue", "NameArgs", "Path", "PathSegment"})
+                                                               "GenericArgument", "ImplItem", "Member"}, structs_ok={"Flag", "ExprLit", "NameValue", "NameArgs", "Path", "PathSegment", "ItemStruct", "ItemEnum", "Field", "Variant"})
                     except OSError:
                         pass
 
@@ -1026,6 +1026,11 @@ def elem_ty(ty):
     m = re.match(r"(?:std::vec::|alloc::vec::)?Vec<(.*)>$", t)
     if m:
         return m.group(1)
+    m = re.match(r"(?:syn::punctuated::)?Punctuated<(.*)>$", t)
+    if m:
+        return parse.split_top(m.group(1))[0]
+    if head_of(t) == "Fields":
+        return "syn::Field"
     return None
 
 
